@@ -1,6 +1,6 @@
 (* C07 — S: the reference evaluator written from the language definition (CLHS block / return-from /
    tagbody / go / unwind-protect; slip's documentation for ignore-errors, recover, with-mutex-lock,
-   with-open-file), and the guard: the syntactic region where slip's body loops deliver every exit.
+   with-open-file), and the guard: programs whose return-from / go name lexically visible blocks / tags.
 
    In S a non-local exit is an OUTCOME, not a value: Normal v | Ret tag v | Goto tag | Err class.  A
    sub-form that does not complete normally ends the evaluation of every enclosing form immediately until
@@ -11,17 +11,6 @@
 From C07 Require Export Model.
 
 Inductive outcome := Normal (v : value) | Ret (t : N) (v : value) | Goto (t : N) | Err (c : cls) | Hang | OOF.
-
-Definition memN (t : N) (l : list N) : bool := existsb (N.eqb t) l.
-Fixpoint tags_of (items : list item) : list N :=
-  match items with [] => [] | ITag t :: r => t :: tags_of r | IForm _ :: r => tags_of r end.
-(* the statements after the first occurrence of tag t *)
-Fixpoint after_tag (t : N) (items : list item) : list item :=
-  match items with
-  | [] => []
-  | ITag t' :: r => if N.eqb t' t then r else after_tag t r
-  | IForm _ :: r => after_tag t r
-  end.
 
 Inductive sstep := SDone | SOut (o : outcome) | SJump (t : N).
 
@@ -214,6 +203,16 @@ Section S.
           | None => (Err CUndefFn, st)
           | Some body => catch (fn_tag i) (s_seq (ev [fn_tag i] []) body VNil st)
           end
+      | Unless c body =>
+          match ev bl tg c st with
+          | (Normal v, st1) => if is_nil v then s_seq (ev bl tg) body VNil st1 else (Normal VNil, st1)
+          | (o, st1) => (o, st1)
+          end
+      | If c a b =>
+          match ev bl tg c st with
+          | (Normal v, st1) => if is_nil v then ev bl tg b st1 else ev bl tg a st1
+          | (o, st1) => (o, st1)
+          end
       end
     end.
 End S.
@@ -237,94 +236,64 @@ Definition to_mres (o : outcome) : mres :=
   end.
 
 (* ---- the guard --------------------------------------------------------------------------------- *)
-(* gd pb R G f: f is written at a place from which slip delivers a return-from to each block in R and a go
-   to each tag in G, and every exit inside f stays within that.  pb: the scope the form is evaluated in
-   is itself a block scope (do.go forwards a named return only then).  Everything the clauses exclude is a
-   known finding (known_findings/C07.json). *)
-(* mvfree f: the value of f is never the two-valued object of ignore-errors (conservative, syntactic).
-   when.go / cond.go test "EvalArg(...) != nil" on the raw object, so (when (ignore-errors (error "x")) ...)
-   takes the branch: such tests are outside the guard. *)
-Section MV.
-  Variable mv : form -> bool.
-  Fixpoint last_ok (fs : list form) : bool :=
-    match fs with [] => true | [f] => mv f | _ :: r => last_ok r end.
-  Fixpoint clauses_ok (cs : list (form * list form)) : bool :=
-    match cs with [] => true | (c, b) :: r => last_ok b && (match b with [] => mv c | _ => true end) && clauses_ok r end.   (* a clause without forms returns its test value *)
-End MV.
-Fixpoint mvfree (f : form) {struct f} : bool :=
-  match f with
-  | Const _ | Tr _ | Signal _ | Incf _ | Lt _ _ | Setv _ _ | CallList _ | Tagbody _
-  | ReturnFrom _ _ | Return _ | Go _ => true
-  | Progn body | When _ body | Let _ body | WithMutex _ body | WithFile _ body => last_ok mvfree body
-  | Cond cs => clauses_ok mvfree cs
-  | UnwindProtect _ p _ => mvfree p
-  | _ => false
-  end.
-
+(* gd R G f: every return-from / return in f names a block in R or a block of f itself around it, every go
+   a tag in G or a tag of a tagbody / loop body of f around it.  With R and G the block names and tags in
+   whose scope f is written this says that f is LEXICALLY SCOPED, which is all the guard asks since
+   repo_fixes/C07-1 .. C07-21: every form passes every exit on from every position.  What it excludes is
+   where slip looks blocks and tags up dynamically (known findings C07-block-lookup-is-dynamic,
+   C07-go-lookup-is-dynamic, C07-go-unknown-tag-escapes): a function body that names a block or tag of its
+   caller, and a go inside some tagbody to a tag that no enclosing tagbody has. *)
 Definition compound (f : form) : bool := match f with Const _ => false | _ => true end.
-Fixpoint nodupN (l : list N) : bool := match l with [] => true | x :: r => negb (memN x r) && nodupN r end.
 
 Section Guard.
-  Variable gd : bool -> list N -> list N -> form -> bool.
-  (* all forms at the same kind of position *)
-  Fixpoint g_all (pb : bool) (R G : list N) (fs : list form) : bool :=
-    match fs with [] => true | f :: r => gd pb R G f && g_all pb R G r end.
-  (* positions before the last get (R1, G1), the last one (R2, G2) *)
-  Fixpoint g_seq (pb : bool) (R1 G1 R2 G2 : list N) (fs : list form) : bool :=
-    match fs with
-    | [] => true
-    | [f] => gd pb R2 G2 f
-    | f :: r => gd pb R1 G1 f && g_seq pb R1 G1 R2 G2 r
-    end.
-  (* statements of a tagbody-like body: a go reaches only the tags written AFTER the statement *)
-  Fixpoint g_items (pb : bool) (R : list N) (items : list item) : bool :=
+  Variable gd : list N -> list N -> form -> bool.
+  Fixpoint g_all (R G : list N) (fs : list form) : bool :=
+    match fs with [] => true | f :: r => gd R G f && g_all R G r end.
+  (* statements of a tagbody-like body (a statement is a list form, anything else would be read as a tag) *)
+  Fixpoint g_items (R G : list N) (items : list item) : bool :=
     match items with
     | [] => true
-    | ITag t :: r => g_items pb R r
-    | IForm f :: r => compound f && gd pb R (tags_of r) f && g_items pb R r
+    | ITag t :: r => g_items R G r
+    | IForm f :: r => compound f && gd R G f && g_items R G r
     end.
-  (* cond: tests deliver nothing and are not two-valued objects; bodies are non-empty implicit progns *)
-  Fixpoint g_clauses (pb : bool) (R G : list N) (cs : list (form * list form)) : bool :=
+  Fixpoint g_clauses (R G : list N) (cs : list (form * list form)) : bool :=
     match cs with
     | [] => true
-    | (c, b) :: r =>
-        gd pb [] [] c && negb (match b with [] => true | _ => false end) &&
-        g_seq pb [] [] R G b && g_clauses pb R G r
+    | (c, b) :: r => gd R G c && g_all R G b && g_clauses R G r
     end.
 End Guard.
 
-Fixpoint gd (pb : bool) (R G : list N) (f : form) {struct f} : bool :=
+Fixpoint gd (R G : list N) (f : form) {struct f} : bool :=
   match f with
   | Const _ | Tr _ | Signal _ | Incf _ | Lt _ _ | Setv _ _ => true
-  | CallList args => g_all gd pb [] [] args
-  | Progn body => g_seq gd pb [] [] R G body
-  | When c body => gd pb [] [] c && g_seq gd pb [] [] R G body
-  | Cond cs => g_clauses gd pb R G cs
-  | Let inits body => g_all gd pb [] [] inits && g_all gd false R G body
-  | Block t body => g_seq gd true (t :: R) [] (t :: R) G body
-  | ReturnFrom t e => memN t R && gd pb [] [] e
-  | Return e => memN 0%N R && gd pb [] [] e
-  | Tagbody items =>
-      forallb (fun t => negb (sym_tag t)) (tags_of items) && nodupN (tags_of items) &&
-      g_items gd false [] items
+  | CallList args => g_all gd R G args
+  | Progn body => g_all gd R G body
+  | When c body => gd R G c && g_all gd R G body
+  | Cond cs => g_clauses gd R G cs
+  | Let inits body => g_all gd R G inits && g_all gd R G body
+  | Block t body => g_all gd (t :: R) G body
+  | ReturnFrom t e => memN t R && gd R G e
+  | Return e => memN 0%N R && gd R G e
+  | Tagbody items => g_items gd R (tags_of items ++ G) items
   | Go t => memN t G
-  | UnwindProtect _ p cs => gd pb R G p && g_all gd pb [] [] cs
-  | IgnoreErrors body => g_seq gd pb [] [] R G body
-  | Recover h body => gd false R G h && g_seq gd pb [] [] R G body
-  | WithMutex _ body => g_seq gd pb [] [] R G body
-  | WithFile _ body => g_seq gd false [] [] R G body
-  | Loop _ _ body res =>
-      nodupN (tags_of body) && g_items gd true (0%N :: R) body && gd true [] [] res
-  | Do _ body res =>
-      nodupN (tags_of body) && g_items gd true (0%N :: (if pb then R else [])) body && g_all gd true [] [] res
-  | Lam body => g_seq gd true R [] R G body
+  | UnwindProtect _ p cs => gd R G p && g_all gd R G cs
+  | IgnoreErrors body => g_all gd R G body
+  | Recover h body => gd R G h && g_all gd R G body
+  | WithMutex _ body => g_all gd R G body
+  | WithFile _ body => g_all gd R G body
+  | Loop _ _ body res => g_items gd (0%N :: R) (tags_of body ++ G) body && gd (0%N :: R) G res
+  | Do _ body res => g_items gd (0%N :: R) (tags_of body ++ G) body && g_all gd (0%N :: R) G res
+  | Lam body => g_all gd R G body
   | CallU _ => true
+  | Unless c body => gd R G c && g_all gd R G body
+  | If c a b => gd R G c && gd R G a && gd R G b
   end.
 
+(* a function body sees its own block only *)
 Fixpoint gd_defs (i : nat) (defs : list (list form)) : bool :=
   match defs with
   | [] => true
-  | b :: r => g_all gd true [fn_tag i] [] b && gd_defs (S i) r
+  | b :: r => g_all gd [fn_tag i] [] b && gd_defs (S i) r
   end.
 
 (* well-formed: what the rendering into Lisp needs to be injective and accepted by the argument-count
@@ -338,7 +307,8 @@ Fixpoint wf (f : form) {struct f} : bool :=
   | Const _ | Tr _ | Signal _ | Incf _ | Lt _ _ | Go _ | CallU _ => true
   | Setv x _ => Nat.ltb x NVARS
   | CallList fs | Progn fs | Block _ fs | IgnoreErrors fs | WithMutex _ fs | WithFile _ fs | Lam fs => all fs
-  | When c fs | Recover c fs => wf c && all fs
+  | When c fs | Recover c fs | Unless c fs => wf c && all fs
+  | If c a b => wf c && wf a && wf b
   | Cond cs =>
       (fix gc (cs : list (form * list form)) : bool :=
          match cs with [] => true | (c, b) :: r => wf c && all b && gc r end) cs
@@ -351,4 +321,4 @@ Fixpoint wf (f : form) {struct f} : bool :=
   end.
 Definition wf_prog (p : prog) : bool := wf (snd p) && forallb (forallb wf) (fst p).
 
-Definition guard (p : prog) : bool := gd false [] [] (snd p) && gd_defs 0 (fst p).
+Definition guard (p : prog) : bool := gd [] [] (snd p) && gd_defs 0 (fst p).
